@@ -174,10 +174,48 @@ def run_conv(cases, res):
         if mval != v or tag != 0 or mint != obs['asint'] or mbool != obs['bool'] or muraw != obs['uraw'] or mfloor != math.floor(v) or mimg != obs['uraw']:
             res.fail(c, 'model Conv conversions disagree with the implementation although the property holds', expected=(str(mval), tag, mint, mbool, muraw), got=obs['asint']); res.failures[-1]['no_input'] = True
 
+def narrow_cases(rng, n):
+    """comparands of a NARROW NumPy float type (np.float16 / np.float32) next to a stored value that the narrow type cannot hold: the relation
+    is about the exact values (nothing may be rounded to the narrow type first); objects built from integer VALUES (integer value type) too"""
+    cases = []
+    while len(cases) < n:
+        nw = rng.choice([12, 13, 14, 16, 20, 24]); s = rng.random() < 0.6; nf = rng.choice([0, -1, -2, -3, 1, 2])
+        lo, hi = S.fmt_bounds(s, nw); c = rng.choice([hi, lo, hi - 1, rng.randint(lo, hi), rng.randint(lo, hi) | 1, (1 << (nw - 2)) + 1])
+        c = max(lo, min(hi, c))
+        cases.append({'f16': True, 'f': [s, nw, nf], 'c': c, 'build': rng.choice(['raw', 'intval', 'intval_elem', 'raw_elem']), 'ftype': rng.choice(['float16', 'float16', 'float32']), 'nb': rng.choice([0, 0, 1, -1])})
+    return cases
+
+def run_narrow(cases, res):
+    fx = lib.impl(); import numpy as np
+    for c in cases:
+        s, nw, nf = c['f']; v = Fraction(c['c']) / Fraction(2) ** nf
+        ft = getattr(np, c['ftype'])
+        with np.errstate(all='ignore'): h = ft(float(v))
+        if c['nb']: h = np.nextafter(h, ft(np.inf if c['nb'] > 0 else -np.inf))
+        if not np.isfinite(h): continue
+        try:
+            b = c['build']
+            if b in ('intval', 'intval_elem') and nf <= 0:
+                x = fx.Fxp(int(v), s, nw, nf) if b == 'intval' else fx.Fxp([0, int(v)], s, nw, nf)[1]
+            elif b == 'raw_elem': x = A.mk(fx, np, s, nw, nf, [0, c['c']], shape=(2,))[1]
+            else: x = A.mk(fx, np, s, nw, nf, c['c'])
+            if lib.codes_of(x) != [c['c']]: continue
+            got = [bool(np.asarray(r).reshape(-1)[0]) for r in (x < h, x <= h, x == h, x != h, x > h, x >= h)]
+            gotl = [bool(np.asarray(r).reshape(-1)[0]) for r in (h < x, h <= x, h == x, h != x, h > x, h >= x)]
+            UF = (np.less, np.less_equal, np.equal, np.not_equal, np.greater, np.greater_equal)
+            gotu = [bool(np.asarray(u(x, h)).reshape(-1)[0]) for u in UF]; gotul = [bool(np.asarray(u(h, x)).reshape(-1)[0]) for u in UF]
+        except Exception as e:
+            res.fail(c, 'C16: a comparison with a narrow NumPy float raised %s' % lib.exc_name(e), got=str(e)[:200]); continue
+        hv = Fraction(float(h)); want = [pyop(o, v, hv) for o in OPS]; wantl = [pyop(o, hv, v) for o in OPS]
+        res.count('N:narrow-float-comparands', key=repr(c), nontrivial=(v != hv), n=24)
+        if got != want or gotl != wantl or gotu != want or gotul != wantl:
+            res.fail(c, 'C16: comparison with a np.%s number disagrees with the exact stored value (%s against %s)' % (c['ftype'], v, hv), expected=(dict(zip(OPS, want)), dict(zip(OPS, wantl))), got=(dict(zip(OPS, got)), dict(zip(OPS, gotl)), dict(zip(OPS, gotu)), dict(zip(OPS, gotul))))
+
 def shard(shard, nshards, rng, tier, extra):
     res = Result()
     run_cmp(cmp_cases(rng, (12000 if tier == 'quick' else 100000) // nshards), res)
     run_conv(conv_cases(rng, tier, shard, nshards), res)
+    run_narrow(narrow_cases(rng, (2400 if tier == 'quick' else 20000) // nshards), res)
     res.exhaustive = True
     return res
 
@@ -186,6 +224,7 @@ def run(seed, tier):
 def classify(fl): return None
 def replay(payload):
     c = payload['case']; res = Result()
-    if 'cx' in c: run_cmp([c], res)
+    if c.get('f16'): run_narrow([c], res)
+    elif 'cx' in c: run_cmp([c], res)
     else: run_conv([c], res)
     return {'holds': not res.failures, 'failures': res.failures}
